@@ -167,7 +167,7 @@ impl Prop for C16 {
         "C16"
     }
     fn rule(&self) -> String {
-        "cases = 2-4 prepared statements with 1-12 parameters and a history of 2-30 executions; each execution picks a statement and either rebinds (new-params-bound = 1 with freshly generated types, or with the bound types changed only in some signedness flags or in a single position) or reuses (flag = 0, no type block; the first execution after a prepare always binds, as the protocol requires); values are encoded per the types in force in the reference model types[stmt]. Oracle: the shim must see exactly the model's (type code, ValueInner) lists for every execution.  In 1 of 5 executions the shim pulls only a prefix of the parameters (possibly none) from the iterator; what that execution bound must persist all the same. One history in ten has the shim hand out an id that is still open for a new statement (same parameter count) in mid-history, after which the next execution binds afresh; one in eight ends with such a new statement being executed *without* binding types (parameters encoded per the old statement's types), which must never reach the shim. Non-trivial = some reuse happens after a rebind of a *different* statement (so a single global type table would be caught), or a reuse follows a rebind to different types of the same statement.".into()
+        "cases = 2-4 prepared statements with 1-12 parameters and a history of 2-30 executions; each execution picks a statement and either rebinds (new-params-bound = 1 with freshly generated types, or with the bound types changed only in some signedness flags or in a single position) or reuses (flag = 0, no type block; the first execution after a prepare always binds, as the protocol requires); values are encoded per the types in force in the reference model types[stmt]. Oracle: the shim must see exactly the model's (type code, ValueInner) lists for every execution.  In 1 of 5 executions the shim pulls only a prefix of the parameters (possibly none) from the iterator; what that execution bound must persist all the same. One execution in six has one of its parameters streamed beforehand with COM_STMT_SEND_LONG_DATA (types must survive an execution that consumed long data). One history in ten has the shim hand out an id that is still open for a new statement (same parameter count) in mid-history, after which the next execution binds afresh; one in eight ends with such a new statement being executed *without* binding types (parameters encoded per the old statement's types), which must never reach the shim. Non-trivial = some reuse happens after a rebind of a *different* statement (so a single global type table would be caught), or a reuse follows a rebind to different types of the same statement.".into()
     }
     fn assumptions(&self) -> Vec<String> {
         vec!["the recording shim iterates all parameters of every execution, as every caller in the repository does (the library parses the type block lazily inside the iterator)".into()]
@@ -220,7 +220,21 @@ impl Prop for C16 {
                     _ => fresh,
                 });
             }
-            let params = params_for(g, types[s].as_ref().unwrap());
+            let mut params = params_for(g, types[s].as_ref().unwrap());
+            // sometimes one parameter of this execution is streamed beforehand (long data and type
+            // reuse are independent features: what is bound must survive an execution that
+            // consumed long data)
+            if g.chance(1, 6) {
+                let p = g.below(params.len() as u64) as usize;
+                let nch = g.usize_in(1, 3);
+                for _ in 0..nch {
+                    let n = g.usize_in(0, 9);
+                    ops.push(Op::Long { stmt: s, param: p as u16, data: g.bytes(n) });
+                }
+                if !matches!(params[p].value, PVal::Null) {
+                    params[p].value = PVal::LongData;
+                }
+            }
             // a shim may look at only some of the parameters (or none): what is bound must persist
             let take = if g.chance(1, 5) { Some(g.usize_in(0, params.len())) } else { None };
             ops.push(Op::Exec { stmt: s, params, rebind, take });
@@ -261,6 +275,9 @@ impl Prop for C16 {
         }
         if reuse_after_other {
             ex.class("reuse-after-rebind-of-other-statement");
+        }
+        if case.ops.iter().any(|o| matches!(o, Op::Long { .. })) {
+            ex.class("history-with-streamed-parameters");
         }
         if case.ops.iter().any(|o| matches!(o, Op::Reprepare { .. })) {
             ex.class("open-id-prepared-anew-mid-history");
